@@ -126,6 +126,28 @@ def r1(ctx: Ctx):
              'batches with a wrong column count or unequal column lengths are'
              ' accepted: row i of different columns no longer comes from the'
              ' same input row', node=fi.node)
+  # the length test is made for EVERY incoming batch, before any other decision: a test that
+  # only runs at a flush sees accumulated sizes, and two out-of-step batches that compensate
+  # each other — (2,1) then (1,2) — pass and are emitted with rows of different input rows side by side
+  if ok_r and upd:
+    upd_nodes = [n_ for n_ in g.nodes if n_.ast is upd[0]]
+    others = [c for c in g.nodes if c.kind == 'cond' and c not in hetero]
+    late = None
+    for un in upd_nodes:
+      for s_, lab in un.succ:
+        if lab in ('exc', 'close') or s_ in hetero:
+          continue
+        w_ = g.must_pass(s_, others + [g.exit_ret], lambda nd: nd in hetero, cfgm.only_normal)
+        if w_ is not None or s_ in others:
+          late = w_ or [s_.text()]
+    if late:
+      ctx.fail(rule, fi, 'rebatched_args: unequal column lengths are rejected for every incoming batch',
+               'after the sizes of an incoming batch were added, another decision (' + str(late[-1]).split(':', 2)[-1][:40]
+               + ') is taken before the equal-length test: the test no longer sees each batch on its own, so'
+               ' out-of-step batches whose differences cancel out are accepted and row i of different columns'
+               ' comes from different input rows', node=upd[0])
+    else:
+      ctx.ok(rule, fi, 'equal-length test follows the size update of every incoming batch', upd[0])
   end = [n for n in g.nodes if isinstance(n.ast, ast.Assign) and unparse(n.ast) == f'{exh} = True']
   nxt = [c for c in g.nodes if c.kind == 'cond' and 'next(' in unparse(c.ast) and 'is None' in unparse(c.ast)]
   if end and nxt and all(e in [s for s, lab in nxt[0].succ if lab == 'true'] for e in end):
@@ -526,6 +548,10 @@ from mlmverif.selfcheck import B, OK  # noqa: E402
 
 _F = 'utils/iter_utils.py'
 VARIANTS = [
+    B('length-test-only-at-flush', 'utils/iter_utils.py',
+      '      if not all(batch_sizes[0] == each_size for each_size in batch_sizes):\n        raise ValueError(\n            f\'Hetroegeneous columns number, got {batch_sizes=} does not equal\'\n            f\' {batch_size=}.\'\n        )\n    # Flush the buffer when the batch size is reached.\n    has_batch_sizes = batch_sizes.size and batch_sizes[0]\n    if has_batch_sizes and (batch_sizes[0] >= batch_size or exhausted):\n',
+      '    # Flush the buffer when the batch size is reached.\n    has_batch_sizes = batch_sizes.size and batch_sizes[0]\n    if has_batch_sizes and (batch_sizes[0] >= batch_size or exhausted):\n      if not all(batch_sizes[0] == each_size for each_size in batch_sizes):\n        raise ValueError(\n            f\'Hetroegeneous columns number, got {batch_sizes=} does not equal\'\n            f\' {batch_size=}.\'\n        )\n',
+      'R-C19-1'),
     B('concat-forces-first-chunk-dtype', 'utils/iter_utils.py',
       '    return np.concatenate(list(data))', "    return np.concatenate(list(data), dtype=np.asarray(batch).dtype, casting='unsafe')", 'R-C19-7'),
     OK('concat-from-tuple', 'utils/iter_utils.py',
